@@ -180,6 +180,11 @@ def enumerate_rewrites(schema, doc):
                 add("unique-argument", site, dup_arg)
             given = dict(s.args)
             for an, ad in fd.args.items():
+                if is_nn(ad.type) and an in given:
+                    def null_req(d2, idx=idx, an=an):
+                        n = node_at(d2, idx)[0]
+                        n.args = [(a, ("null",) if a == an else v) for a, v in n.args]
+                    add("value-of-correct-type", site + "/null-for-non-null-argument", null_req)
                 if is_nn(ad.type) and ad.default is ABSENT and an in given:
                     def rm_req(d2, idx=idx, an=an):
                         n = node_at(d2, idx)[0]
@@ -223,6 +228,10 @@ def enumerate_rewrites(schema, doc):
                 n = node_at(d2, idx)[0]
                 n.directives.extend([DirUse("skip", [("if", ("bool", False))]), DirUse("skip", [("if", ("bool", False))])])
             add("unique-directive-per-location", site, rep_dir)
+            def rep_dir_diff(d2, idx=idx):
+                n = node_at(d2, idx)[0]
+                n.directives.extend([DirUse("include", [("if", ("bool", True))]), DirUse("include", [("if", ("bool", False))])])
+            add("unique-directive-per-location", site + "/different-arguments", rep_dir_diff)
             def dir_bad_arg(d2, idx=idx):
                 node_at(d2, idx)[0].directives.append(DirUse("include", [("if", ("str", "yes"))]))
             add("value-of-correct-type", site + "/directive-argument", dir_bad_arg)
@@ -256,6 +265,14 @@ def enumerate_rewrites(schema, doc):
                         n = node_at(d2, idx)
                         n[4].sels.insert(n[5], Inline(other, [], [Field("__typename")]))
                     add("fragment-spread-possible", site, impossible)
+            if pk == "OBJECT":
+                others = [o.name for o in schema.objects() if o.name != parent and o.name not in schema.roots()]
+                if others:
+                    def impossible_named(d2, idx=idx, other=others[-1]):
+                        n = node_at(d2, idx)
+                        d2.defs.append(Fragment("ImpossibleHere", other, [Field("__typename")]))
+                        n[4].sels.insert(n[5], Spread("ImpossibleHere"))
+                    add("fragment-spread-possible", site + "/named-fragment", impossible_named)
             if s.kind == "inline":
                 def inl_dir(d2, idx=idx):
                     node_at(d2, idx)[0].directives.append(DirUse("nopeDirective"))
@@ -303,6 +320,26 @@ def enumerate_rewrites(schema, doc):
             o.vardefs.append(("listVar", L(NN(N("Boolean"))), ABSENT))
             o.sels.append(Field("__typename", "usesList", [], [DirUse("skip", [("if", ("var", "listVar"))])]))
         add("variable-allowed-in-position", "operation/listness", list_var)
+        def bad_default(d2, oi=oi):
+            o = opi(d2, oi)
+            o.vardefs.append(("badDefault", N("Int"), ("str", "not an int")))
+            o.sels.append(Field("__typename", "usesBadDefault", [], [DirUse("skip", [("if", ("bool", False))])]) if False else
+                          Field("__typename", "usesBadDefault"))
+            # use the variable so that only its default is wrong
+            o.sels[-1].directives = [DirUse("include", [("if", ("bool", True))])]
+            o.vardefs[-1] = ("badDefault", NN(N("Boolean")), ("str", "not a boolean"))
+            o.sels[-1].directives = [DirUse("include", [("if", ("var", "badDefault"))])]
+        add("value-of-correct-type", "operation/variable-default", bad_default)
+        if op.op == "query":
+            def type_without_name(d2, oi=oi):
+                opi(d2, oi).sels.append(Field("__type", "metaNoArg", [], [], [Field("name")]))
+            add("required-argument", "operation/meta-field", type_without_name)
+            def schema_with_arg(d2, oi=oi):
+                opi(d2, oi).sels.append(Field("__schema", "metaBadArg", [("nope", ("int", 1))], [], [Field("queryType", None, [], [], [Field("name")])]))
+            add("known-argument", "operation/meta-field", schema_with_arg)
+            def type_unknown_sub(d2, oi=oi):
+                opi(d2, oi).sels.append(Field("__type", "metaBadField", [("name", ("str", "Query"))], [], [Field("nopeMetaField")]))
+            add("fields-exist", "operation/meta-field", type_unknown_sub)
         if op.vardefs:
             def dup_var(d2, oi=oi):
                 o = opi(d2, oi)
